@@ -1,4 +1,108 @@
-import YncaVerif.Lemmas.L4Defs
+import YncaVerif.Lemmas.L4Step
 /-! Helper lemmas for C16. -/
 namespace Ynca.L4
+
+theorem close_never_raises (P : Params) (s s' : St) (l : Label) (o : Obs) (t : Tid)
+    (h : step P s l = some (s', some o)) : o ≠ .closeRaised t := by
+  cases l <;> l4_step_cases h
+  all_goals simp
+
+theorem close_accepted (P : Params) (s : St) (t : Tid) (h : mayCall s t = true) :
+    (step P s (.callClose t)).isSome = true := by
+  simp only [step, h, if_true]; split <;> rfl
+
+theorem cleared_step (P : Params) (s s' : St) (l : Label) (o : Option Obs)
+    (hi : s.closeStarted = true → s.discCbSet = false) (hs : step P s l = some (s', o)) :
+    s'.closeStarted = true → s'.discCbSet = false := by
+  cases l <;> l4_step_cases hs
+  all_goals simp_all
+
+theorem close_clears_callback (P : Params) (s : St) (h : Reachable P s) (hc : s.closeStarted = true) :
+    s.discCbSet = false :=
+  reachable_induction P (fun s => s.closeStarted = true → s.discCbSet = false) (by simp) (cleared_step P) s h hc
+
+theorem no_disc_when_cleared (P : Params) (s s' : St) (l : Label) (o : Obs) (hc : s.discCbSet = false)
+    (h : step P s l = some (s', some o)) : o ≠ .discCb := by
+  cases l <;> l4_step_cases h
+  all_goals simp_all
+
+theorem no_write_when_closed (P : Params) (s s' : St) (l : Label) (o : Obs) (t : String)
+    (hp : s.portOpen = false) (h : step P s l = some (s', some o)) : o ≠ .write t := by
+  cases l <;> l4_step_cases h
+  all_goals simp_all
+
+theorem port_stays_closed (P : Params) (s s' : St) (l : Label) (o : Option Obs)
+    (hp : s.portOpen = false) (h : step P s l = some (s', o)) : s'.portOpen = false := by
+  cases l <;> l4_step_cases h
+  all_goals simp_all
+
+theorem no_msgcb_without_callbacks (P : Params) (s s' : St) (l : Label) (cb : Nat) (m : Msg)
+    (hc : s.msgCbs = []) (h : step P s l = some (s', some (.msgCb cb m))) : False := by
+  cases l <;> simp only [step, stepS, stepR, stepU, stepClose, enqueue] at h
+  all_goals (repeat' split at h) <;> simp_all
+
+/-- close() program points past `alive := false` -/
+def needsDead : UPc → Bool
+  | .closing (.c3 _) => true
+  | .closing .c4 => true
+  | .closing .c5 => true
+  | .closing .c6 => true
+  | .closing .r3 => true
+  | _ => false
+
+/-- close() program points past `serial.close()` -/
+def needsClosed : UPc → Bool
+  | .closing .c5 => true
+  | .closing .c6 => true
+  | _ => false
+
+/-- the C16 invariant -/
+structure CloseInv (s : St) : Prop where
+  ret : s.closeReturned = true → s.portOpen = false ∧ s.alive = false
+  dead : ∀ t, needsDead (upcOf s t) = true → s.alive = false
+  closed : ∀ t, needsClosed (upcOf s t) = true → s.portOpen = false
+
+theorem closeInv_setUpc (s s1 : St) (t0 : Tid) (p : UPc)
+    (hrc : s1.rcall = s.rcall) (hcs : s1.callers = s.callers)
+    (hi : CloseInv s)
+    (hret : s1.closeReturned = true → s1.portOpen = false ∧ s1.alive = false)
+    (ha : s.alive = false → s1.alive = false) (hp : s.portOpen = false → s1.portOpen = false)
+    (hd : needsDead p = true → s1.alive = false) (hc : needsClosed p = true → s1.portOpen = false) :
+    CloseInv (setUpc s1 t0 p) := by
+  have hu : ∀ t, upcOf s1 t = upcOf s t := by intro t; simp [upcOf, hrc, hcs]
+  refine ⟨by simpa using hret, fun t h => ?_, fun t h => ?_⟩
+  · by_cases ht : t = t0
+    · subst ht; simp at h ⊢; exact hd h
+    · rw [upcOf_setUpc_other _ _ _ _ ht, hu] at h; simp; exact ha (hi.dead t h)
+  · by_cases ht : t = t0
+    · subst ht; simp at h ⊢; exact hc h
+    · rw [upcOf_setUpc_other _ _ _ _ ht, hu] at h; simp; exact hp (hi.closed t h)
+
+theorem closeInv_step (P : Params) (s s' : St) (l : Label) (o : Option Obs)
+    (hi : CloseInv s) (hs : step P s l = some (s', o)) : CloseInv s' := by
+  have hr := hi.ret
+  cases l with
+  | u t0 =>
+    have hd0 := hi.dead t0
+    have hc0 := hi.closed t0
+    l4_step_cases hs <;>
+      (apply closeInv_setUpc s (hi := hi) <;> simp_all [needsDead, needsClosed])
+  | call t0 text =>
+    l4_step_cases hs <;>
+      (apply closeInv_setUpc s (hi := hi) <;> simp_all [needsDead, needsClosed])
+  | callClose t0 =>
+    l4_step_cases hs
+    · apply closeInv_setUpc s (hi := hi) <;> simp_all [needsDead, needsClosed]
+    · exact hi
+  | _ =>
+    l4_step_cases hs <;>
+      first
+      | exact ⟨hi.ret, hi.dead, hi.closed⟩
+      | exact ⟨fun h => ⟨(hi.ret h).1, rfl⟩, fun _ _ => rfl, hi.closed⟩
+
+theorem after_close_return (P : Params) (s : St) (h : Reachable P s) (hr : s.closeReturned = true) :
+    s.portOpen = false ∧ s.alive = false :=
+  (reachable_induction P CloseInv (by constructor <;> simp [upcOf, lookup, needsDead, needsClosed])
+    (closeInv_step P) s h).ret hr
+
 end Ynca.L4
